@@ -1,11 +1,11 @@
 """C19 — exported OpenQASM describes the same computation as the circuit (DESIGN 5/C19)."""
-import cmath, math, re, warnings
+import cmath, itertools, math, re, warnings
 import numpy as np
 from .. import env, coq, runner, gates, tables, circuits, opsem
 
 LEVEL = 'translation_validation'
 META = dict(
-    text='Translation validation with proven components. Per generated program: the text produced by Circuit.to_qasm / cirq.qasm / QasmOutput (versions 2.0 and 3.0, several precisions and qubit orders) is read by an independent fail-closed reader, every instruction is given the matrix its standard library (qelib1.inc / stdgates.inc, transcribed gate by gate in coq/Vendor/Qasm.v) defines, and inside Coq (i) the unitary of the parsed program is compared up to global phase with the reference unitary of the circuit built from the documented gate matrices, (ii) measured qubits, register sizes, bit order and the key<->register map are compared with the proven layout model, (iii) each classical condition is compared with the circuit condition as a truth table over the register bits, (iv) for circuits with measurements and controls the outcome distribution and the per-outcome states of the parsed program (qexec) equal those of the circuit (exec of Sim/Measure.v). Coq theorems (generic ring, all exponents of each guard): what every `_qasm_` rule emits, read with the standard library, is the documented matrix up to an explicit unit factor; the regenerated mnemonic table equals the emission model.',
+    text='Translation validation with proven components. Per generated program: the text produced by Circuit.to_qasm / cirq.qasm / QasmOutput (versions 2.0 and 3.0, several precisions and qubit orders) is read by an independent fail-closed reader, every instruction is given the matrix its standard library (qelib1.inc / stdgates.inc, transcribed gate by gate in coq/Vendor/Qasm.v) defines, and inside Coq (i) the unitary of the parsed program is compared up to global phase with the reference unitary of the circuit built from the documented gate matrices, (ii) measured qubits, register sizes, bit order and the key<->register map are compared with the proven layout model, (iii) the conditional statements are matched with the classically controlled operations - every statement of the body an operation exports alone (several for H**t, CCZ, CCY, decomposed operations; none for a global phase) must appear under the conditions of that operation - and each conjunction of conditions is compared with the conditions of the circuit as a truth table over the register bits, (iv) for circuits with measurements and controls the outcome distribution and the per-outcome states of the parsed program (qexec) equal those of the circuit (exec of Sim/Measure.v). Coq theorems (generic ring, all exponents of each guard): what every `_qasm_` rule emits, read with the standard library, is the documented matrix up to an explicit unit factor; the regenerated mnemonic table equals the (version-aware) emission model; no key of the model uses a gate its include file does not define.',
     note='Trusted: Coq kernel; the transcription of qelib1.inc / stdgates.inc in coq/Vendor/Qasm.v (OpenQASM 2.0 paper + the qelib1.inc shipped with Qiskit for sx/sxdg; OpenQASM 3.0 spec standard library); the Python reader (tokeniser, expression evaluator, cos/sin of the parsed angles); the docstring transcription coq/Gates/GateSpecs.v; the float instance (PrimFloat) with tolerance 10^(1-precision) (scaled by the number of rounded angles beyond 10) + 1e-9. The quantifier over programs is sampled; the KAK/one-qubit numeric fallbacks are validated per program, not proved.',
     technique='Rocq/Coq proofs about the standard-library matrices + per-program translation validation evaluated by vm_compute inside Coq',
 )
@@ -282,9 +282,13 @@ def read_qasm(text, lenient=()):
             take('sym', ')')
             if peek()[0] == 'sym' and peek()[1] == '{':
                 raise Unsupported('block body of an if statement')
+            if peek()[0] == 'eof':
+                raise Malformed('statement expected at the end of the text (an `if` without a body)')
             body = statement(in_if=True)
             if body is None:
                 raise Malformed('declaration inside if')
+            if body[0] == 'if' and not v3:
+                raise Malformed(f'line {t[2]}: the body of an OpenQASM 2.0 `if` is one quantum operation, found another `if`')
             return ('if', conds, body)
         if v3 and any(c[0] == name for c in P.cregs) and name not in GATES:
             # OpenQASM 3.0 assignment  c[k] = measure q[j];
@@ -369,15 +373,12 @@ def stmt_term(s, v3):
 
 def program_term(P):
     v3 = P.version == '3.0'
-    out = []
-    for s in P.stmts:
+
+    def conv(s):
         if s[0] == 'if':
-            cs = []
-            for (r, op, val) in s[1]:
-                cs.append(f'(QCond {r} {P.cregs[r][1]} {val} {"true" if op == "==" else "false"})')
-            s = ('if', cs, s[2])
-        out.append(stmt_term(s, v3))
-    return '[' + ';\n '.join(out) + ']'
+            return ('if', [f'(QCond {r} {P.cregs[r][1]} {val} {"true" if op == "==" else "false"})' for (r, op, val) in s[1]], conv(s[2]))
+        return s
+    return '[' + ';\n '.join(stmt_term(conv(s), v3) for s in P.stmts) + ']'
 
 
 def tolerance(precision, nparams):
@@ -490,32 +491,92 @@ def cond_key(cirq, c):
     raise opsem.Unsupported(f'condition {c!r}')
 
 
-def diagnose(cirq, circuit, order, P, text):
+def standalone_body(cirq, sub, cfg):
+    """The statements of an operation exported alone (same qubit order, version and precision): its QASM body.  When the
+    operation is classically controlled, every one of these statements has to appear under the condition.  None when the
+    operation alone cannot be exported or read."""
+    text, exc = export(cirq, cirq.Circuit(sub), cfg['order'], 'QasmOutput', cfg['version'], cfg['precision'])
+    if exc is not None:
+        return None
+    try:
+        return read_qasm(text, lenient=LENIENT).stmts
+    except (Malformed, Unsupported):
+        return None
+
+
+def same_stmt(a, b):
+    if a[0] != b[0]:
+        return False
+    if a[0] == 'gate':
+        return a[1] == b[1] and a[3] == b[3] and len(a[2]) == len(b[2]) and all(abs(x - y) <= 1e-12 for x, y in zip(a[2], b[2]))
+    if a[0] == 'reset':
+        return a[1] == b[1]
+    return False
+
+
+def partition_ifs(ifs, ctrls, bodies):
+    """The conditional statements of the text against the classically controlled operations of the circuit, in order:
+    operation j owns the next len(body_j) conditional statements (none for an empty body such as a global phase), each
+    of them `if (<conditions>) <statement k of the body>`; the conditions themselves are compared as a conjunction by the
+    caller (Cirq keeps them as a set, so a repeated condition may appear twice in the text).  Returns the groups or None."""
+    pos, groups = 0, []
+    for (conds, sub, nbefore), body in zip(ctrls, bodies):
+        if body is None:
+            return None
+        grp = ifs[pos:pos + len(body)]
+        if len(grp) != len(body) or any(not same_stmt(st[2], b) for st, b in zip(grp, body)):
+            return None
+        groups.append(grp)
+        pos += len(body)
+    return groups if pos == len(ifs) else None
+
+
+def count_ifs(P):
+    """(number of top-level `if` statements, is any `if` nested in another)"""
+    ifs = [st for st in P.stmts if st[0] == 'if']
+    return len(ifs), any(st[2][0] == 'if' for st in ifs)
+
+
+def diagnose(cirq, circuit, cfg, P, text, malformed='', labels=()):
     """Names the feature of the input that explains a disagreement (signature of the finding)."""
     import sympy
+    order = cfg['order']
     meas, ctrls, _ = analyse(cirq, circuit, order)
-    args = cirq.QasmArgs()
     keys = []
     for k, _, _ in meas:
         if k not in keys:
             keys.append(k)
-    for conds, sub, nbefore in ctrls:
-        if isinstance(sub.gate, cirq.GlobalPhaseGate):
-            return 'if:empty-body:global-phase'
-        try:
-            q = cirq.qasm(sub, args=cirq.QasmArgs(qubit_id_map={q: f'q[{i}]' for i, q in enumerate(order)},
-                                                  meas_key_id_map={k: 'm' for k in keys}), default=None)
-        except Exception:
-            q = None
-        if q is not None and q.count(';') > 1:
-            return 'if:multi-statement-body'
+    # conditional statements that do not cover exactly the bodies of the classically controlled operations
+    bodies = [standalone_body(cirq, sub, cfg) for _, sub, _ in ctrls]
+    if ctrls and all(b is not None for b in bodies):
+        expected = sum(len(b) for b in bodies)
+        empty = any(len(b) == 0 for b in bodies)
+        if P is None:
+            if empty and 'statement expected at the end of the text' in malformed:
+                return 'if:empty-body:global-phase'
+            if empty and 'found another `if`' in malformed:
+                return 'if:empty-body:global-phase'
+        else:
+            nifs, nested = count_ifs(P)
+            if empty and (nested or nifs > expected):
+                return 'if:empty-body:global-phase'
+            if nifs < expected and any(len(b) > 1 for b in bodies):
+                return 'if:multi-statement-body'
+    only_semantic = P is not None and labels and all(l.startswith('condition[') or l == 'distribution' for l in labels)
     for conds, sub, nbefore in ctrls:
         for c in conds:
-            if isinstance(c, cirq.SympyCondition) and isinstance(c.expr, sympy.Eq):
+            if isinstance(c, cirq.SympyCondition) and isinstance(c.expr, sympy.Eq) and not valid_id('m_' + cond_key(cirq, c)):
+                return 'cond:sympy-eq:register-name'
+            try:
                 k = cond_key(cirq, c)
-                if not valid_id('m_' + k):
-                    return 'cond:sympy-eq:register-name'
-                sizes = [len(a) for kk, a, _ in meas[:nbefore] if kk == k]
+            except opsem.Unsupported:
+                continue
+            sizes = [len(a) for kk, a, _ in meas[:nbefore] if kk == k]
+            # the text is well formed and only the condition / the outcome statistics differ: a condition on a key whose
+            # latest measurement is narrower than an earlier one reads the stale high bits of the register
+            if only_semantic and len(sizes) > 1 and max(sizes[:-1]) > sizes[-1]:
+                return 'cond:stale-register-bits'
+            if isinstance(c, cirq.SympyCondition) and isinstance(c.expr, sympy.Eq):
                 if sizes and sizes[-1] > 1:
                     return 'cond:sympy-eq:bit-order'
             if isinstance(c, (cirq.KeyCondition,)) and c.index != -1:
@@ -565,6 +626,7 @@ def program_checks(cirq, circuit, cfg, text, ref=None):
     st = '[' + '; '.join(f'({q}%nat, {r}%nat, {b}%nat)' for q, r, b in stmts) + ']'
     out.append(('registers', f'layout_ok {ms} {sizes} {st}'))
     keys = list(keyid.ids)
+    keys_in_order = list(keys)       # register r belongs to the r-th key in first-measurement order (layout model)
     names_ok = len(keys) == len(P.cregs)
     for k, (name, size, comment) in zip(keys, P.cregs):
         if valid_id('m_' + k):
@@ -573,19 +635,45 @@ def program_checks(cirq, circuit, cfg, text, ref=None):
             names_ok = names_ok and re.match(r'm\d+\Z', name) is not None and comment == 'Measurement: ' + ' '.join(k.split('\n'))
     out.append(('registers:key-names', 'true' if names_ok else 'false'))
     # ---- (iii) conditions as truth tables over the register bits ----
+    # A classically controlled operation runs as a whole iff its conditions hold: every statement of its QASM body (the
+    # statements it exports alone; several for H**t, CCZ, CCY, multi-qubit identity, decomposed operations; none for a
+    # global phase) carries the operation's condition, and each such condition is compared with the circuit's condition.
+    kinds = []
     ifs = [s for s in P.stmts if s[0] == 'if']
-    if len(ifs) != len(ctrls) or any(len(s[1]) != len(c[0]) for s, c in zip(ifs, ctrls)):
-        out.append(('conditions:count', 'false'))
+    groups = partition_ifs(ifs, ctrls, [standalone_body(cirq, sub, cfg) for _, sub, _ in ctrls])
+    if groups is None:
+        out.append(('conditions:bodies', 'false'))
     else:
-        for j, (s, (conds, sub, nbefore)) in enumerate(zip(ifs, ctrls)):
-            for (reg, op, val), c in zip(s[1], conds):
-                k = cond_key(cirq, c)
-                lens = [len(a) for kk, a, _ in meas[:nbefore] if kk == k][-2:]
-                if not lens:
-                    raise opsem.Unsupported('condition on a key that is not measured before')
-                cterm = opsem.cond_terms(cirq, [c], keyid)[1:-1]
-                qc = f'(QCond {reg} {P.cregs[reg][1]} {val} {"true" if op == "==" else "false"})'
-                out.append((f'condition[{j}]', f'cond_same {cterm} {keyid(k)} {qc} {reg} {gates.nlist(lens)}'))
+        for j, (grp, (conds, sub, nbefore)) in enumerate(zip(groups, ctrls)):
+            seen = set()
+            for s in grp:
+                if tuple(s[1]) in seen:      # the same condition text on a later statement of the body
+                    continue
+                seen.add(tuple(s[1]))
+                # the conditions of an operation are a conjunction (Cirq keeps them as a set): the operation runs iff all hold;
+                # compared as one truth table over the histories (last three measurements) of every key involved
+                ks, regs = [], {}
+                for c in conds:
+                    k = cond_key(cirq, c)
+                    if k in regs:
+                        continue
+                    lens = [len(a) for kk, a, _ in meas[:nbefore] if kk == k][-3:]
+                    if not lens:
+                        raise opsem.Unsupported('condition on a key that is not measured before')
+                    if k not in keys_in_order:
+                        raise opsem.Unsupported('condition on a key without a register')
+                    regs[k] = keys_in_order.index(k)
+                    ks.append(f'({keyid(k)}%nat, {regs[k]}%nat, {gates.nlist(lens)})')
+                qcs = [f'(QCond {reg} {P.cregs[reg][1]} {val} {"true" if op == "==" else "false"})' for reg, op, val in s[1]]
+                out.append((f'condition[{j}]', f'conds_same {opsem.cond_terms(cirq, conds, keyid)} [{"; ".join(qcs)}] [{"; ".join(ks)}]'))
+        qargs = cirq.QasmArgs(version=cfg['version'], qubit_id_map={q: f'q[{i}]' for i, q in enumerate(order)})
+        for grp, (conds, sub, nbefore) in zip(groups, ctrls):
+            try:
+                direct = cirq.qasm(sub, args=qargs, default=None) is not None
+            except Exception:       # noqa
+                direct = True
+            kinds.append('empty (global phase)' if not grp else 'decomposed (no QASM form of its own)' if not direct else
+                         'one statement' if len(grp) == 1 else 'several statements')
     # ---- (iv) outcome distribution and per-outcome states ----
     nbits = sum(len(a) for _, a, _ in meas)
     if nbits <= 5 and n <= 4:
@@ -593,7 +681,7 @@ def program_checks(cirq, circuit, cfg, text, ref=None):
         sh = gates.nlist([2] * n)
         out.append(('distribution', f'ensembles_close {tol} {2 ** n} {nbits} (exec FOps {sh} {terms} (zero_state {n})) '
                                     f'(qexec FOps {sh} {prog} (zero_state {n}))'))
-    return P, out, dict(tol=tol, nbits=nbits)
+    return P, out, dict(tol=tol, nbits=nbits, bodies=kinds)
 
 
 class Batch:
@@ -637,7 +725,7 @@ class Batch:
         except Malformed as e:
             msg = str(e)
             ctx.count(stream, key, nontrivial)
-            tag = msg.split('|')[1] if '|' in msg else (diagnose(cirq, circuit, cfg['order'], None, text) or 'malformed:' + '+'.join(fams))
+            tag = msg.split('|')[1] if '|' in msg else (diagnose(cirq, circuit, cfg, None, text, malformed=msg) or 'malformed:' + '+'.join(fams))
             ctx.disagree(f'correspondence:{stream}', msg, tag, f'{desc}: the emitted text is not OpenQASM {cfg["version"]}: {msg.split("|")[0]}',
                          dict(kind=stream, **rep))
             return 'malformed'
@@ -653,6 +741,9 @@ class Batch:
         if count:
             ctx.count(stream, key, nontrivial, sample=sample if sample is not None else
                       dict(circuit=' '.join(repr(circuit).split())[:300], config=cj, instructions=len(P.stmts), checks=[l for l, _ in exprs]))
+        cb = ctx.cov.setdefault('conditional_bodies', {})
+        for kind in info.get('bodies', ()):
+            cb[kind] = cb.get(kind, 0) + 1
         idx = len(self.programs)
         self.programs.append(dict(stream=stream, desc=desc, rep=rep, fams=fams, circuit=circuit, cfg=cfg, P=P, text=text, tol=info['tol'], case=case))
         for label, expr in exprs:
@@ -709,7 +800,7 @@ class Batch:
         shrunk = self.shrink(failing)
         for pi, labels in sorted(failing.items()):
             pr = self.programs[pi]
-            diag = diagnose(self.cirq, pr['circuit'], pr['cfg']['order'], pr['P'], pr['text'])
+            diag = diagnose(self.cirq, pr['circuit'], pr['cfg'], pr['P'], pr['text'], labels=labels)
             if pr['case'] is not None and len(pr['case'].ops) == 1 and 'unitary' in labels:
                 diag = diag or 'unitary:op:' + op_tag(self.cirq, pr['case'].ops[0], pr)
             diag = diag or shrunk.get(pi)
@@ -718,7 +809,7 @@ class Batch:
                     'distribution': 'the parsed program and the circuit have different outcome distributions / per-outcome states',
                     'registers': 'registers or measure statements differ from one bit per measured qubit in operation order',
                     'registers:key-names': 'the register names do not correspond to the measurement keys',
-                    'conditions:count': 'the number of conditional statements differs from the number of classically controlled operations',
+                    'conditions:bodies': 'the conditional statements of the text are not, in order, the statements of each classically controlled operation\'s QASM body, every one under that operation\'s conditions (a statement of a body left unconditional, a condition without a body, or a different body)',
                     'layout:qubits': 'the declared quantum register does not have one qubit per circuit qubit'}
             detail = '; '.join(what.get(l, f'{l} of the text differs from the circuit condition (as a predicate on the measured bits)') for l in labels)
             m = pr.get('min')
@@ -756,7 +847,8 @@ def run(ctx):
     cirq = env.import_cirq()
     ctx.rule = ('programs = (generated circuit over the gate vocabulary incl. 1-3 qubit MatrixGates, controlled gates, every family '
                 'with a _qasm_ rule at its special and at generic exponents; circuits with measurements, invert masks, repeated and '
-                'non-identifier keys, classical controls of every condition kind, resets) x (API: Circuit.to_qasm / cirq.qasm / QasmOutput) x '
+                'non-identifier keys, classical controls of every condition kind on operations whose QASM body has one statement, several (H**t, CCZ, CCY, '
+                'multi-qubit identity, operations without a QASM form that are decomposed) or none (global phase), resets) x (API: Circuit.to_qasm / cirq.qasm / QasmOutput) x '
                 '(version 2.0 / 3.0) x (precision 3,5,7,10) x (qubit order: given, reversed, shuffled); non-trivial = >= 2 operations '
                 'sharing a qubit and >= 1 non-diagonal gate (unitary streams), >= 1 measurement and >= 1 gate (measurement streams); '
                 'exports that refuse with an explicit "no QASM form" error are counted as trivial; distinct by canonical (circuit, configuration)')
@@ -897,6 +989,28 @@ def directed_circuits(cirq):
         cirq.Circuit(cirq.H(q[0]), cirq.H(q[1]), cirq.measure(q[0], key='a'), cirq.measure(q[1], key='b'),
                      cirq.X(q[2]).with_classical_controls('a', 'b'), cirq.measure(q[2], key='c')),
         cirq.Circuit(cirq.H(q[0]), cirq.measure(q[0], key='a'), cirq.measure(q[0], q[1], key='a')),
+        # classically controlled operations whose QASM body has several statements, none, or comes from a decomposition
+        cirq.Circuit(cirq.H(q[0]), cirq.measure(q[0], key='a'), cirq.CCZ(q[1], q[2], q[3]).with_classical_controls('a'), cirq.H(q[3])),
+        cirq.Circuit(cirq.H(q[0]), cirq.H(q[1]), cirq.H(q[2]), cirq.measure(q[0], key='a'), cirq.CCYPowGate().on(q[1], q[2], q[3]).with_classical_controls('a')),
+        cirq.Circuit(cirq.X(q[0]) ** 0.5, cirq.measure(q[0], key='x y'), cirq.IdentityGate(2).on(q[1], q[2]).with_classical_controls('x y'),
+                     (cirq.H(q[1]) ** -0.3).with_classical_controls('x y'), cirq.Y(q[2]) ** 0.5),
+        cirq.Circuit(cirq.H(q[0]), cirq.H(q[1]), cirq.measure(q[0], key='a'), cirq.measure(q[1], key='b'),
+                     (cirq.H(q[2]) ** 0.5).with_classical_controls('a', 'b'), cirq.measure(q[2], key='c')),
+        cirq.Circuit(cirq.H(q[0]), cirq.measure(q[0], key='a'), cirq.X(q[1]).with_classical_controls('a'),
+                     cirq.global_phase_operation(-1).with_classical_controls('a'), cirq.Z(q[1]).with_classical_controls('a'), cirq.H(q[1])),
+        cirq.Circuit(cirq.H(q[0]), cirq.measure(q[0], key='a'), cirq.H(q[1]), cirq.global_phase_operation(1j).with_classical_controls('a')),
+        cirq.Circuit(cirq.H(q[0]), cirq.measure(q[0], key='a'), cirq.H(q[1]), cirq.ISWAP(q[1], q[2]).with_classical_controls('a')),
+        cirq.Circuit(cirq.H(q[0]), cirq.measure(q[0], key='a'), cirq.H(q[1]), cirq.FSimGate(0.3, 0.7).on(q[1], q[2]).with_classical_controls('a')),
+        cirq.Circuit(cirq.H(q[0]), cirq.measure(q[0], key='a'), (cirq.CZ(q[1], q[2]) ** 0.5).with_classical_controls('a')),
+        cirq.Circuit(cirq.H(q[0]), cirq.measure(q[0], key='a'), cirq.H(q[1]), (cirq.CCZ(q[1], q[2], q[3]) ** 0.5).with_classical_controls('a')),
+        # X**-0.5 (sxdg is a gate of qelib1.inc only), alone and inside the KAK fallback of a two-qubit matrix
+        cirq.Circuit(cirq.X(q[0]) ** -0.5, cirq.H(q[1]), cirq.CNOT(q[1], q[0])),
+        cirq.Circuit(cirq.MatrixGate(cirq.testing.random_unitary(4, random_state=7)).on(q[0], q[1])),
+        cirq.Circuit(cirq.H(q[0]), cirq.measure(q[0], key='a'), (cirq.X(q[1]) ** -0.5).with_classical_controls('a')),
+        # a key measured on two qubits and then on one: the register keeps the stale high bit
+        cirq.Circuit(cirq.H(q[0]), cirq.H(q[1]), cirq.measure(q[0], q[1], key='a'), cirq.measure(q[0], key='a'), cirq.X(q[2]).with_classical_controls('a')),
+        cirq.Circuit(cirq.H(q[0]), cirq.H(q[1]), cirq.measure(q[0], q[1], key='a'), cirq.measure(q[0], key='a'),
+                     cirq.X(q[2]).with_classical_controls(sympy.Eq(a, 0))),
         # measurements that only appear through decomposition
         cirq.Circuit(cirq.CircuitOperation(cirq.FrozenCircuit(cirq.H(q[0]), cirq.measure(q[0], key='a')))),
         cirq.Circuit(cirq.H(q[0]), cirq.measure_single_paulistring(cirq.X(q[0]) * cirq.Z(q[1]), key='p')),
@@ -945,11 +1059,26 @@ def random_qasm_mcircuit(cirq, rng):
         if r > 0.95:
             c.append(cirq.reset(qs[rng.randrange(n)]))
             continue
-        kq = 1 if (n == 1 or rng.random() < 0.65) else 2
-        ws = rng.sample(range(n), kq)
-        fams = ['XPow', 'YPow', 'ZPow', 'HPow', 'PhasedX', 'Rx', 'Ry'] if kq == 1 else ['CZPow', 'CXPow', 'SwapPow', 'ISwapPow', 'FSim']
-        g = gates.draw(rng, rng.choice(fams))
-        op = g.cirq_gate(cirq).on(*[qs[w] for w in ws])
+        r3 = rng.random()
+        if r3 < 0.07:
+            # a global phase: no QASM statement at all, conditional or not
+            op = cirq.global_phase_operation(cmath.exp(1j * gates.draw_angle(rng)))
+        elif n == 3 and r3 < 0.22:
+            # three-qubit gates: ccx / cswap (one statement), CCZ / CCY (h;ccx;h, sdg;ccx;s), generic exponents (decomposed)
+            fam = rng.choice(['CCZPow', 'CCXPow', 'CCYPow', 'CSwap'])
+            g = gates.draw(rng, fam)
+            if fam != 'CSwap' and rng.random() < 0.7:
+                g = gates.G(fam, dict(e=1.0, s=rng.choice([0.0, 0.0, 0.25])), (2, 2, 2))
+            op = g.cirq_gate(cirq).on(*[qs[w] for w in rng.sample(range(n), 3)])
+        elif n >= 2 and r3 < 0.27:
+            op = cirq.IdentityGate(2).on(*[qs[w] for w in rng.sample(range(n), 2)])
+        else:
+            kq = 1 if (n == 1 or rng.random() < 0.65) else 2
+            ws = rng.sample(range(n), kq)
+            fams = (['XPow', 'YPow', 'ZPow', 'HPow', 'HPow', 'PhasedX', 'PhasedXZ', 'Rx', 'Ry'] if kq == 1 else
+                    ['CZPow', 'CXPow', 'CYPow', 'SwapPow', 'ISwapPow', 'FSim', 'ZZPow'])
+            g = gates.draw(rng, rng.choice(fams))
+            op = g.cirq_gate(cirq).on(*[qs[w] for w in ws])
         if measured and rng.random() < 0.45:
             key, kb = rng.choice(measured)
             ninst = sum(1 for m in measured if m[0] == key)
@@ -964,7 +1093,10 @@ def random_qasm_mcircuit(cirq, rng):
                 cond = rng.choice([sympy.Symbol(key), sympy.Ne(sympy.Symbol(key), 0)])
             else:
                 cond = cirq.BitMaskKeyCondition(key, bitmask=1, target_value=1, equal_target=True)
-            op = op.with_classical_controls(cond)
+            conds = [cond]
+            if len(measured) > 1 and rng.random() < 0.1:      # several conditions: `&&` in 3.0, refused for 2.0
+                conds.append(cirq.KeyCondition(cirq.MeasurementKey(rng.choice(measured)[0])))
+            op = op.with_classical_controls(*conds)
         c.append(op, strategy=cirq.InsertStrategy.NEW if rng.random() < 0.2 else cirq.InsertStrategy.EARLIEST)
     if not measured:
         c.append(cirq.measure(qs[rng.randrange(n)], key='a'))
